@@ -1407,12 +1407,20 @@ func (p *PikeVM) addThread(t thread, haystack []byte, pos int) {
 		// For alternation: left=first alt, right=second alt → first alt explored first
 		left, right := state.Split()
 
+		// Clone captures for right branch to ensure COW works properly.
+		// The clone must be taken BEFORE the left branch is explored: it raises
+		// the reference count, which forces the left branch to copy before it
+		// records a capture. Otherwise the left branch writes into the shared
+		// array in place and the right branch inherits its capture positions.
+		var rightCaps cowCaptures
+		if right != InvalidState {
+			rightCaps = t.captures.clone()
+		}
 		if left != InvalidState {
 			p.addThread(thread{state: left, startPos: t.startPos, captures: t.captures}, haystack, pos)
 		}
 		if right != InvalidState {
-			// Clone captures for right branch to ensure COW works properly.
-			p.addThread(thread{state: right, startPos: t.startPos, captures: t.captures.clone()}, haystack, pos)
+			p.addThread(thread{state: right, startPos: t.startPos, captures: rightCaps}, haystack, pos)
 		}
 
 	case StateCapture:
@@ -1510,11 +1518,16 @@ func (p *PikeVM) addThreadToNext(t thread, haystack []byte, pos int) {
 	case StateSplit:
 		left, right := state.Split()
 
+		// Clone for the right branch before exploring the left one (see addThread).
+		var rightCaps cowCaptures
+		if right != InvalidState {
+			rightCaps = t.captures.clone()
+		}
 		if left != InvalidState {
 			p.addThreadToNext(thread{state: left, startPos: t.startPos, captures: t.captures}, haystack, pos)
 		}
 		if right != InvalidState {
-			p.addThreadToNext(thread{state: right, startPos: t.startPos, captures: t.captures.clone()}, haystack, pos)
+			p.addThreadToNext(thread{state: right, startPos: t.startPos, captures: rightCaps}, haystack, pos)
 		}
 		return
 
